@@ -1042,6 +1042,8 @@ func (e *Exec) inline(st *State, pkg *packages.Package, node ast.Node, ft *ast.F
 	savedQuiet := e.quiet
 	if !isLit {
 		e.quiet = true
+		e.inlineDepth++
+		defer func() { e.inlineDepth-- }()
 	}
 	e.frames = append(e.frames, fr)
 	e.stack = append(e.stack, name)
